@@ -61,6 +61,7 @@ def cases(tier):
             out.append((4, di, di % len(KINDS), 2, part))
     for use_all in (0, 1):
         out.append(('lazy', use_all, 0, 2 if q else 3))
+    out.append(('namemode-links', 0, 0, 0))
     return out
 
 
@@ -71,6 +72,8 @@ LAZY = [family.P('T0', params=[family.par('p0', default=0)]), family.P('T1', par
 def make_harness(case, tier):
     if case[0] == 'lazy':
         return lazy_harness(case)
+    if case[0] == 'namemode-links':
+        return namemode_links(case)
     n, di, ki, h = case[:4]
     part = case[4] if len(case) > 4 else None
     hist.setup(full=False)
@@ -79,7 +82,7 @@ def make_harness(case, tier):
     spec = [dict(t, data=kinds[j]) for j, t in enumerate(spec)]
     names = [f't{j}' for j in range(n)]
     ops = [('req', j) for j in range(n)] + [('reqprev', j) for j in range(n)] + [('insp', 0)] \
-        + [('new', 0), ('newshared', 0), ('restart', 0)]
+        + [('new', 0), ('newshared', 0), ('restart', 0)] + ([('new+req+reqprev', n - 1)] if n == 2 else [])
 
     def harness(ctx):
         world = hist.World(spec, [{}])
@@ -100,6 +103,19 @@ def make_harness(case, tier):
             trace.append((op, arg))
             mark = world.mark()
             info = {'dag': edges, 'kinds': kinds[:n], 'trace': list(trace)}
+            if op == 'new+req+reqprev':
+                # another chain computes what the first one had only looked at; then the first one asks
+                prev = cur
+                cur = world.build(0, registry=f'r{step + 1}')
+                ref.build(0, registry=f'r{step + 1}')
+                for k in (cur, prev):
+                    mark = world.mark()
+                    exp_runs, _, exp_val = ref.request(k, names[arg])
+                    got = world.request(k, names[arg])
+                    runs = [r[0] for r in world.runs_since(mark)]
+                    ctx.check_concrete(sorted(runs) == sorted(exp_runs), 'runs=closure',
+                                       dict(info, ran=runs, expected=exp_runs, chain='new' if k == cur else 'previous'))
+                continue
             if op in ('req', 'reqprev'):
                 k = cur if op == 'req' else prev
                 if k is None:
@@ -138,6 +154,40 @@ def make_harness(case, tier):
                 prev = None
                 cur = world.build(0, registry='r0')
                 ref.build(0, registry='r0')
+    return harness
+
+
+def namemode_links(case):
+    """results stored under config names: creating readable links (whose default name IS the config name) and the
+    other inspection calls leave the results where they are"""
+    hist.setup(full=False)
+
+    def harness(ctx):
+        from taskchain import Config, Chain
+        edges, spec = family.dag_specs(3)[5]
+        kinds = KINDS[ctx.choice('kinds', len(KINDS))]
+        spec = [dict(t, data=kinds[j]) for j, t in enumerate(spec)]
+        world = hist.World(spec, [{}])
+
+        def chain():
+            return Chain(Config(world.fs.path('/data'), name='experiment', data={'tasks': list(world.classes.values())}),
+                         parameter_mode=False)
+        c1 = chain()
+        for t in ('t0', 't1', 't2'):
+            c1.tasks[t].value
+        have = {t: c1.tasks[t].has_data for t in ('t0', 't1', 't2')}
+        named = ctx.flag('explicit_link_name')
+        c1.create_readable_filenames(name='pretty' if named else None)
+        c1.create_readable_filenames(name='pretty' if named else None, keep_existing=ctx.flag('keep_existing'))
+        del family.RUNLOG[:]
+        c2 = chain()
+        after = {t: c2.tasks[t].has_data for t in ('t0', 't1', 't2')}
+        for t in ('t0', 't1', 't2'):
+            c2.tasks[t].value
+        info = {'mode': 'name', 'kinds': kinds[:3], 'explicit_link_name': named}
+        ctx.check_concrete(after == have, 'inspection-runs-nothing', dict(info, has_data_before=have, has_data_after=after))
+        ran = [r[0] for r in family.RUNLOG if have.get(r[0])]
+        ctx.check_concrete(not ran, 'at-most-once', dict(info, ran_again=ran))
     return harness
 
 
